@@ -11,6 +11,7 @@ import m_streams
 import m_regions
 import m_conc
 import m_copyw
+import m_amap
 
 
 def c09(ctx):
@@ -42,6 +43,7 @@ PROPS = {
     "C08": m_conc.run,
     "C09": c09,
     "C10": m_regions.run,
+    "C11": m_amap.run,
     "C13": m_streams.run,
     "C14": m_guest.run_c14,
     "C19": m_addr.run,
